@@ -18,7 +18,7 @@ PAGE = 4096
 
 MODELS = [  # (part, module, quick cfgs, thorough cfgs, design mutants (the first is run in the quick tier too), mutant cfg prefix)
     ("pw", "MCPrefixWriter", ["MCPrefixWriterQuick"], ["MCPrefixWriterQuick", "MCPrefixWriterWide"],
-     ["EagerAtChunkEnd", "PrefixEveryWrite", "CountsPrefix", "BapFromLen", "ErrBeforePrefix", "EmptyWritePrefix"], "MCPrefixWriterBug_"),
+     ["EagerAtChunkEnd", "PrefixEveryWrite", "CountsPrefix", "EmptyWritePrefix", "SwallowPartialError", "CountsWholePiece", "BapFromLen", "ErrBeforePrefix"], "MCPrefixWriterBug_"),
     ("kp", "MCKPanic", ["MCKPanicQuick"], ["MCKPanicQuick", "MCKPanicDeep"],
      ["StrFallsThrough", "ErrStaleMessage", "HaltFirst", "ModuleOmitted"], "MCKPanicBug_"),
     ("km", "KMemModel", ["MCKMemQuick"], ["MCKMemFull"], ["NoTail", "LenPlusOne", "ForwardCopy", "SwapArgs", "ZeroTouches"], "MCKMemBug_"),
@@ -27,9 +27,9 @@ MODELS = [  # (part, module, quick cfgs, thorough cfgs, design mutants (the firs
 ]
 
 DEVIATIONS = [
-    "PrefixWriter Dev_PrefixErrIgnored: the result of Sink.Write(Prefix) is dropped - Write can return (len(p), nil) although prefix bytes never reached the sink",
-    "PrefixWriter Dev_PrefixBeforeErrCheck: when a '\\n'-terminated piece inside a chunk is refused by the sink, the next line's prefix is still handed to the sink before Write returns the error",
-    "PrefixWriter Dev_LineStateFromCount: bytesAfterPrefix is the count the sink returned for the last unterminated piece and is untouched by a refused '\\n'-piece; after a sink error the next Write may repeat the prefix in mid-line (e.g. prefix '>', sink refusing 1 byte into 'ab\\n': a retry of 'b\\n' yields '>a>b\\n')",
+    "PrefixWriter (as coded, refinement model only - not demanded of the code) Dev_PrefixErrIgnored: the result of Sink.Write(Prefix) is dropped - Write can return (len(p), nil) although prefix bytes never reached the sink",
+    "PrefixWriter (as coded, refinement model only) Dev_PrefixBeforeErrCheck: when a '\\n'-terminated piece inside a chunk is refused by the sink, the next line's prefix is still handed to the sink before Write returns the error",
+    "PrefixWriter (as coded, refinement model only) Dev_LineStateFromCount: bytesAfterPrefix is the count the sink returned for the last unterminated piece and is untouched by a refused '\\n'-piece; after a sink error the next Write may repeat the prefix in mid-line (e.g. prefix '>', sink refusing 1 byte into 'ab\\n': a retry of 'b\\n' yields '>a>b\\n')",
     "Panic Dev_OtherKindsSilent: a value that is neither error nor string (panic(42) through the runtime.gopanic redirect) prints the frame without any message although the doc says the supplied error is output",
     "Panic Dev_SharedRuntimeError: strings / foreign errors overwrite the Message of the shared errRuntimePanic for good",
     "gate Dev_IstNotMasked: HandleInterrupt stores istOffset unmasked in descriptor byte 4 (bits 3..7 are reserved in hardware)",
@@ -247,6 +247,7 @@ def run(ctx):
     ctx.assumptions += [
         "extension check: the behaviour is specified as coded where the doc comments are silent; the named deviations (Dev_*) are listed in refinement_notes",
         "PrefixWriter: the sink is the environment modelled in PrefixWriter!SinkWrite (byte budget; the call crossing it is cut short and answered with an error; then dead / re-armed / healthy); sinks that return n < len(p) without an error are outside the io.Writer contract and not generated",
+        "PrefixWriter: exact output and (len(p), nil) are demanded while the sink has accepted everything; in the first Write with a sink error: exact stream up to the first refusal, nothing invented or reordered afterwards, io.Writer's count/error rules; Writes after the first sink error are only held to io.Writer's contract (the documentation fixes no line state after an error; the code's choices live in the refinement model PWrite, checked in leg M only)",
         "Panic: observed through SetOutputSink and the cpuHaltFn seam; 'never returns' is checked as: halt called exactly once after the complete report, nothing printed afterwards, an unwinding halt is not recovered",
         "Memset/Memcopy: sizes < 2^63 on mapped memory; guard pages (PROT_NONE) on both sides of the arena, faults recovered with debug.SetPanicOnFault; a dead harness process is reported as a violation of the call named in its intent file",
         "gate: only the registration tables are observed (addresses decoded from the package's own machine code; harness fails if the code shape is unknown); the dispatch path is not executed under the host toolchain (register ABI, R14)",
